@@ -196,6 +196,14 @@ def install(E):
         if a[0].c is not None and a[1].c is not None: return mkslice([StrV(c=x) for x in a[0].c.split(a[1].c)])
         raise Unsupported('strings.Split symbolic')
     I['strings.Split'] = split
+    def conc2(f):
+        def g(e, a):
+            if a[0].c is not None and a[1].c is not None: return f(a[0].c, a[1].c)
+            raise Unsupported('string search on symbolic text')
+        return g
+    I['strings.HasPrefix'] = conc2(lambda s, p: s.startswith(p))
+    I['strings.HasSuffix'] = conc2(lambda s, p: s.endswith(p))
+    I['strings.Index'] = conc2(lambda s, p: s.find(p) & ((1 << 64) - 1))
 
     # ------------------------------------------------------------ bytes.Buffer / binary
     E.ext_zero['bytes.Buffer'] = lambda e: Opaque('buf', StrV(c=''))
